@@ -131,6 +131,7 @@ def grep_forbidden(prop=None):
         files = lean_sources()
     else:
         mods = set(import_closure("Props." + prop)) | set(import_closure("Family." + prop)) | \
+            set(import_closure("Family." + prop + "RoundTrip")) | \
             (set(import_closure("Gen.SchemaBuilds")) if prop in FAMILY_BUILDS else set())
         files = [os.path.join(LEAN, *m.split(".")) + ".lean" for m in sorted(mods)]
     for p in files:
@@ -594,8 +595,20 @@ def family_phase(ctx, builds=None):
         ok, log, dt = build(mods)
         fam["build_s"] = round(dt, 1)
         ctx.counters["family_build_s"] = round(dt, 1)
-        parsers = "Gen.Parsers" in import_closure("Family." + ctx.prop)
-        names = ts.gen_theorems(items, builds, parsers, guards)
+        closure = set()
+        for m in fmods:
+            closure |= set(import_closure(m))
+        parsers = "Gen.Parsers" in closure
+        roundtrip = "Gen.RoundTrip" in closure
+        names = ts.gen_theorems(items, builds, parsers, guards, roundtrip)
+        if roundtrip:
+            # the export→import tables (harness/rt_tables.py) of the bundled schemas as Lean data, their schema part decided by
+            # the kernel (lean/Gen/RoundTrip.lean: <name>_rtSchemaOk); harness/props/c19.py adds what its tie saw
+            fam["roundtrip_schema_part"] = {
+                n: ({"theorem": "PM.Gen.RoundTrip.%s_rtSchemaOk : rtSchemaOk r%s d%s = %s" % (
+                        ts.lname(ts.lean_ident(n)), ts.lean_ident(n), ts.lean_ident(n), "true" if v else "false"),
+                     "tables": "generated" if isinstance(ts.RT_TABLES.get(n), dict) else "none: " + str(ts.RT_TABLES.get(n))})
+                for n, v in ts.RT_SCHEMAS.items()}
         if parsers:
             fam["parser_rules"] = {it[0]: ("rulesOk" if ts.PARSERS.get(it[0]) else "not translated (clear_mark closure)")
                                    for it in items if it[2]}
@@ -608,7 +621,11 @@ def family_phase(ctx, builds=None):
             # the generated per-schema instances are summarised, the hand-written corollaries listed one by one
             gen_ok = sum(1 for k in names if isinstance(details.get(k), list) and set(details[k]) <= ALLOWED_AXIOMS)
             what = (["guards " + ", ".join(guards)] if guards else []) + (["construction"] if builds else []) + \
-                (["parser rules"] if parsers else [])
+                (["parser rules"] if parsers else []) + (["round-trip schema part"] if roundtrip else [])
+            if roundtrip:
+                for sn in ts.RT_SCHEMAS:
+                    k = "PM.Gen.RoundTrip.%s_rtSchemaOk" % ts.lname(ts.lean_ident(sn))
+                    fam["roundtrip_schema_part"][sn]["kernel_checked"] = isinstance(details.get(k), list) and set(details[k]) <= ALLOWED_AXIOMS
             ctx.audit_details["Gen.*"] = f"{gen_ok}/{len(names)} generated kernel-checked instances (" + "; ".join(what) + \
                 ") of the family schemas built and audited"
             for k in fnames:
